@@ -717,6 +717,39 @@ def pulses_snap(proc):
     return snap(out)
 
 
+ENTRIES = ["run", "run_analytically", "run_state"]
+
+
+def call_entry(proc, via, qc, n):
+    """the public entry points that take a circuit and load it: Processor.run(qc), run_analytically(qc=…),
+    run_state(init, qc=…, analytical=True); -> the propagators / states returned, as dense matrices"""
+    import qutip
+    if via == "run":
+        out = proc.run(qc)
+    elif via == "run_analytically":
+        out = proc.run_analytically(qc=qc)
+    else:
+        init = qutip.basis(list(proc.dims), [0] * len(proc.dims))
+        out = proc.run_state(init, qc=qc, analytical=True)
+    return [np.asarray(u.full()) for u in out]
+
+
+def fresh_entry(dev, circ, via, cache):
+    key = ("entry", circ, via)
+    if key not in cache:
+        proc = make_processor(dev["kind"], dev["n"])
+        try:
+            cache[key] = snap(call_entry(proc, via, build_gate_circuit(dev["n"], dev["circuits"][circ]), dev["n"]))
+        except Exception as e:
+            cache[key] = ("exc", type(e).__name__)
+    return cache[key]
+
+
+def res_close(a, b):
+    """returned programs; a circuit loaded through another entry point returns no program (`via`)"""
+    return (isinstance(a, str) and a == "via") or (isinstance(b, str) and b == "via") or close(a, b)
+
+
 def analytic_U(proc):
     """the propagators run_analytically() returns (the last one is the global phase), as dense matrices"""
     try:
@@ -801,7 +834,11 @@ def run_device(dev):
     for c in dev["calls"]:
         rec = {"call": c}
         try:
-            if c[0] == "load":
+            if c[0] == "load" and len(c) > 3 and c[3]:
+                # the circuit handed to another public entry point that loads it (default compiler)
+                rec["entry"] = snap(call_entry(proc, c[3], circuits[c[1]], n))
+                rec["result"] = "via"
+            elif c[0] == "load":
                 r = proc.load_circuit(circuits[c[1]], compiler=(comp if c[2] else None))
                 rec["result"] = snap(r)
             elif c[0] == "compile":
@@ -930,7 +967,13 @@ def rand_device(rng, max_calls=8):
         k = rng.random()
         ci = rng.randrange(len(circuits))
         if k < 0.5:
-            calls.append(("load", ci, rng.random() < 0.7))
+            if rng.random() < 0.3:
+                # the circuit handed to another public entry point that loads it (scq: analytical propagators of a
+                # transmon register are slow, only `run`)
+                ents = [e for e in ENTRIES if not (e == "run_analytically" and "C16-9" in pending())]
+                calls.append(("load", ci, False, rng.choice(ents if kind != "scq" else ["run"])))
+            else:
+                calls.append(("load", ci, rng.random() < 0.7))
         elif k < 0.7:
             a = None
             if rng.random() < 0.5:
@@ -1473,7 +1516,7 @@ def oracle_device(dev):
             key = (c[1], tuple(recs[j]["comp"]["args"]) if c[2] else ())
             if key in first:
                 j0 = first[key]
-                if not close(rec["result"], recs[j0]["result"]) or not close(rec["proc"]["pulses"], recs[j0]["proc"]["pulses"]):
+                if not res_close(rec["result"], recs[j0]["result"]) or not close(rec["proc"]["pulses"], recs[j0]["proc"]["pulses"]):
                     return True, (f"call {j} load_circuit(circuit {c[1]}, args {list(key[1])}) gives different pulses than "
                                   f"the same call {j0} earlier in the history")
             else:
@@ -1483,7 +1526,14 @@ def oracle_device(dev):
             # configuration: same returned program, same pulses held, same global phase
             tokens = recs[j]["comp"]["args"] if c[2] else []
             fr = fresh_program(dev, c[1], tokens, cache)
-            if not close(rec["result"], fr["result"]):
+            via = c[3] if len(c) > 3 else None
+            if via:
+                fe = fresh_entry(dev, c[1], via, cache)
+                if not close(rec.get("entry"), fe, 1e-9):
+                    return True, (f"call {j}: processor.{via}(circuit {c[1]} = {json.dumps(dev['circuits'][c[1]])}) on the USED "
+                                  f"processor returns other propagators than on a fresh processor"
+                                  + (" (the circuit needs no control pulse)" if fr["pulse_free"] else ""))
+            if not res_close(rec["result"], fr["result"]):
                 return True, f"call {j} load_circuit returns a different program than a fresh processor"
             pkey = ("pristine", c[1], tuple(tokens))
             if pkey not in cache:
@@ -1492,7 +1542,7 @@ def oracle_device(dev):
                                                "circ": c[1], "tokens": [list(t) for t in tokens]})
                 cache[pkey] = ref[1] if ref[0] == "ok" else None
             pr = cache[pkey]
-            if pr is not None and not (close(rec["result"], pr["result"]) and close(rec["proc"]["pulses"], pr["pulses"])):
+            if pr is not None and not (res_close(rec["result"], pr["result"]) and close(rec["proc"]["pulses"], pr["pulses"])):
                 assert_same_tree()
                 return True, (f"call {j} load_circuit(circuit {c[1]}, args {list(tokens)}): program / pulses differ from a "
                               f"fresh processor in a new process in which nothing was called before")
@@ -1524,6 +1574,13 @@ W_PHASE = {"kind": "device", "kind_dev": "linear", "n": 1,
 W_PHASE_FREE = {"kind": "device", "kind_dev": "linear", "n": 2,
                 "circuits": [[{"name": "SNOT", "targets": [0], "controls": None, "arg": None}], []],
                 "calls": [["load", 0, False], ["load", 1, False], ["pquery", "run_analytically"]]}
+W_RUN_EMPTY = {"kind": "device", "kind_dev": "linear", "n": 2,
+               "circuits": [[{"name": "SNOT", "targets": [0], "controls": None, "arg": None}], []],
+               "calls": [["load", 0, False, "run"], ["load", 1, False, "run"]]}
+W_RUNAN_QC = {"kind": "device", "kind_dev": "linear", "n": 1,
+              "circuits": [[{"name": "X", "targets": [0], "controls": None, "arg": None}],
+                           [{"name": "RX", "targets": [0], "controls": None, "arg": 0.5}]],
+              "calls": [["load", 0, False], ["load", 1, False, "run_analytically"]]}
 W_PHASE_FREE_CQED = {"kind": "device", "kind_dev": "cqed", "n": 2,
                      "circuits": [[{"name": "X", "targets": [1], "controls": None, "arg": None}],
                                   [{"name": "RZ", "targets": [0], "controls": None, "arg": 0.0}]],
@@ -1814,6 +1871,17 @@ class C16(PropertyCheck):
             if diff:
                 res.disagree(inp, o[:400], "see `what`", diff, dict(case, calls=[list(c) for c in case["calls"]]))
 
+        # 1b. the object-protocol facts the models rely on (pins/protocol.json): an added __len__ / __bool__ / __eq__ /
+        #     __hash__ changes what `if qc:` / `gate in …` do without changing any pinned function
+        from props import _c16_protocol as PR
+        pdiff = PR.differences()
+        res.notes.append("object protocol (dunder methods of QubitCircuit, Gate, Measurement, Instruction, Pulse, …; truthiness "
+                         "of an empty circuit): " + ("unchanged" if not pdiff else "; ".join(pdiff)))
+        if pdiff:
+            res.disagree({"object-protocol": pdiff}, "pins/protocol.json (recorded on the clean tree)", "; ".join(pdiff),
+                         "object-protocol: the classes the models treat as plain objects (always truthy, identity equality, no "
+                         "length) changed their special methods: " + "; ".join(pdiff), W_RUN_EMPTY)
+
         # 2. processor histories: every prefix of the history is a model request
         ndev = 600 if ctx.thorough else 24
         for it in range(ndev):
@@ -1880,7 +1948,11 @@ class C16(PropertyCheck):
                     if not diff and c[0] == "load":
                         ci, tokens = parse_tok(chunks[-1]["tok"])
                         frp = fresh_program(dev, ci, tokens, cache)
-                        if not close(rec["result"], frp["result"]):
+                        via = c[3] if len(c) > 3 else None
+                        if via and not close(rec.get("entry"), fresh_entry(dev, ci, via, cache), 1e-9):
+                            diff = (f"call {k} {c}: processor.{via}(circuit {ci}) returns other propagators than a fresh "
+                                    f"processor (model: the entry point loads the circuit, whatever the circuit is)")
+                        elif not res_close(rec["result"], frp["result"]):
                             diff = f"call {k} {c}: returned program differs from (circuit {ci}, args {tokens})"
                         elif not close(rec["U"], frp["U"], 1e-9):
                             diff = (f"call {k} {c}: analytical propagator of what the processor holds differs from a fresh "
@@ -2080,7 +2152,8 @@ class C16(PropertyCheck):
         pend = sorted(pending())
         if pend:
             checks = []
-            for tag, ws in (("C16-6", (AR.W_COPS, AR.W_OPTS)), ("C16-7", (W_SHARE_STATES,)), ("C16-8", (AR.W_LABELS,))):
+            for tag, ws in (("C16-6", (AR.W_COPS, AR.W_OPTS)), ("C16-7", (W_SHARE_STATES,)), ("C16-8", (AR.W_LABELS,)),
+                            ("C16-9", (W_RUNAN_QC,))):
                 if tag in pend:
                     for w_ in ws:
                         try:
@@ -2109,7 +2182,7 @@ class C16(PropertyCheck):
     def _sweep(self, ctx, budget_s, count):
         rng = ctx.rng
         t0 = time.time()
-        fixed = (W_ALIAS, W_PHASE, W_PHASE_FREE, W_PHASE_FREE_CQED, W_GETTER, W_DRAW, W_QASM, W_SHAPE, W_SHARE_REV, W_SHARE_CHAIN, W_NOISE, W_SIMEDIT, W_SIMEDIT_MEAS, W_TRAJ) + \
+        fixed = (W_ALIAS, W_PHASE, W_PHASE_FREE, W_RUN_EMPTY, W_PHASE_FREE_CQED, W_GETTER, W_DRAW, W_QASM, W_SHAPE, W_SHARE_REV, W_SHARE_CHAIN, W_NOISE, W_SIMEDIT, W_SIMEDIT_MEAS, W_TRAJ) + \
             tuple(PN.FIXED)
         pend = pending()
         if "C16-6" not in pend:
@@ -2118,6 +2191,8 @@ class C16(PropertyCheck):
             fixed += (W_SHARE_STATES,)
         if "C16-8" not in pend:
             fixed += (AR.W_LABELS,)
+        if "C16-9" not in pend:
+            fixed += (W_RUNAN_QC,)
         for w in fixed:
             f, d = oracle(w)
             if f:
